@@ -296,7 +296,9 @@ def wrap_instance(ctx, crmod, wrap_replay):
         dk.pairs = []                      # a single point: no off-diagonal pair
         return dk
     models = {"scipy.spatial.cKDTree": _MF("scipy.cKDTree", kdtree_model), "_Tree.sparse_distance_matrix": _MF("scipy.cKDTree.sparse_distance_matrix(single point)", sdm),
-              "_Dok.items": _MF("dok.items row-major", lambda I2, d: list(d.pairs))}
+              "_Dok.items": _MF("dok.items row-major", lambda I2, d: list(d.pairs)),
+              "_Dok.keys": _MF("dok.keys row-major", lambda I2, d: [k_ for k_, _v in d.pairs]),
+              "_Dok.values": _MF("dok.values row-major", lambda I2, d: [v_ for _k, v_ in d.pairs])}
     contracts = {SG + ".SpaceGroup.apply_all_symops": Contract(result=lambda I2, self_, coords: (iarr([16484]), farr([W])))}
     I = ctx.interp(contracts=contracts, models=models)
     for k_, v_ in models.items():
@@ -374,7 +376,9 @@ def merge_instance(ctx, crmod):
         I2.sdm_decisions = dict(dec)
         return dk
     models = {"scipy.spatial.cKDTree": _MF("scipy.cKDTree", kdtree_model), "_Tree.sparse_distance_matrix": _MF("scipy.cKDTree.sparse_distance_matrix(exact, row-major items)", sdm),
-              "_Dok.items": _MF("dok.items row-major", lambda I2, d: list(d.pairs))}
+              "_Dok.items": _MF("dok.items row-major", lambda I2, d: list(d.pairs)),
+              "_Dok.keys": _MF("dok.keys row-major", lambda I2, d: [k_ for k_, _v in d.pairs]),
+              "_Dok.values": _MF("dok.values row-major", lambda I2, d: [v_ for _k, v_ in d.pairs])}
 
     def apply_all(I2, self_, coords):
         return (iarr([16484, 16484, 4242, 4242]), farr(UP))
